@@ -3,6 +3,9 @@
  *   how = "e<code>"  child exits with <code>
  *         "s<sig>"   child kills itself with signal <sig>
  *         "null"     exec_destroy (NULL)  (what _rsh_thread reaches after pipecmd() failed)
+ *         "c<ms>_e<code>" / "c<ms>_s<sig>"   the child first closes stdin, stdout and stderr, sleeps <ms> ms and
+ *                    only then exits / kills itself: exec_destroy must block until it is gone and report
+ *                    the status it really ended with
  */
 #include "src/modules/execcmd.c"
 
@@ -24,7 +27,16 @@ int harness_exec_destroy(const char *how)
     if (strcmp(how, "null") == 0)
         return exec_destroy(NULL);
     setrlimit(RLIMIT_CORE, &nocore);
-    if (how[0] == 'e')
+    if (how[0] == 'c') {
+        int ms = atoi(how + 1);
+        const char *u = strchr(how, '_');
+        if (!u || (u[1] != 'e' && u[1] != 's'))
+            return -997;
+        if (u[1] == 'e')
+            snprintf(script, sizeof(script), "exec 0<&- 1>&- 2>&-; sleep %d.%03d; exit %d", ms / 1000, ms % 1000, atoi(u + 2));
+        else
+            snprintf(script, sizeof(script), "exec 0<&- 1>&- 2>&-; sleep %d.%03d; kill -%d $$; sleep 5", ms / 1000, ms % 1000, atoi(u + 2));
+    } else if (how[0] == 'e')
         snprintf(script, sizeof(script), "exit %d", atoi(how + 1));
     else if (how[0] == 's')
         snprintf(script, sizeof(script), "kill -%d $$; sleep 5", atoi(how + 1));
